@@ -1,5 +1,8 @@
 use clvm_verif::report::Ctx;
 
+#[global_allocator]
+static GLOBAL: clvm_verif::meter::Meter = clvm_verif::meter::Meter;
+
 fn main() {
     let args: Vec<String> = std::env::args().skip(1).collect();
     if args.is_empty() {
